@@ -355,6 +355,23 @@ def main(argv):
     cases_o = [{"kind": "E", "src": s, "label": lab} for lab, s in ot]
     run_stream("OPERATOR-POOL", cases_o)
 
+    # ---------------- (d') a bare Environment (no `inputs` binding), as blots-core's own tests and library
+    # users create it: calls that bind nothing (parameterless, unnamed) evaluate their body in ... whatever
+    # FunctionDef::call builds; assignments, do-blocks, nested calls, callbacks there
+    BARE = [
+        "base = 41\n(() => total = base + 1)()", "base = 41\nr = {init: () => total = base + 1}\nr.init()",
+        "(() => t = 1)()", "k = 1\n(() => k)()", "k = 2\nf = () => [k, k]\nf()\n[f()] via (q => q)",
+        "k = 2\n(() => do {\n  t = k\n  return t\n})()", "k = 2\ng = () => (() => w = k)()\ng()",
+        "k = 2\n[() => k2 = k][0]()", "k = 2\nmap([1], (...r) => k3 = k)", "k = [1]\n(() => [k4 = k, k4])()",
+        "k = 2\n(() => {a: k5 = k})()", "k = 2\n(() => if true then k6 = k else 0)()", "k = 2\n(() => (k7 = k) + 1)()",
+        "k = 2\n(() => output_k = k)()", "f = () => f\nf()()", "k = 2\n(() => k = 3)()", "k = 2\n(() => (() => k8 = k)())()",
+        "k = 2\nr = {f: () => [() => k9 = k]}\nr.f()[0]()", "k = 2\n0 into (() => 1)", "k = 2\n(() => inputs)()",
+        "k = 2\n(() => #x)()", "inputs = 5\n(() => inputs)()", "k = 2\n(() => constants.pi + k)()",
+    ]
+    cases_bare = [{"kind": "EB", "src": sx, "label": "bare"} for sx in BARE]
+    cases_bare += [{"kind": "PB", "src": g.typed_program(rng), "label": "bare-typed"} for _ in range(150 if quick else 3000)]
+    run_stream("BARE-ENV", cases_bare)
+
     # ---------------- (a) grammar-based
     w = g.WildGen(rng, builtins, 64)
     w.avoid_slow = slow_fmt
